@@ -26,14 +26,17 @@ def view_c13(op, line):
     return ""
 
 
+NOTIF = ("", " plain", " konly", " vonly")
+
+
 def exhaustive_orders(nkeys):
     """every insertion order of nkeys keys, then every removal order (prefix-shared to keep it cheap:
     after the inserts, one removal order per case)"""
     keys = list(range(1, nkeys + 1))
     for ty in ("rb", "avl", "bst"):
-        for io in itertools.permutations(keys):
-            for ro in itertools.permutations(keys):
-                ops = ["new %s" % ty]
+        for ci, (io, ro) in enumerate(itertools.product(itertools.permutations(keys), itertools.permutations(keys))):
+            if True:
+                ops = ["new %s%s" % (ty, NOTIF[ci % 4])]
                 for k in io:
                     ops += ["ins %d" % k]
                 ops += ["shape"]
@@ -46,8 +49,8 @@ def exhaustive_seqs(depth, nkeys=4):
     keys = list(range(1, nkeys + 1))
     alphabet = ["ins %d" % k for k in keys] + ["rem %d" % k for k in keys]
     for ty in TYPES:
-        for seq in itertools.product(alphabet, repeat=depth):
-            ops = ["new %s" % ty]
+        for ci, seq in enumerate(itertools.product(alphabet, repeat=depth)):
+            ops = ["new %s%s" % (ty, NOTIF[ci % 4])]
             for o in seq:
                 ops += [o, "shape"]
             ops += ["each 0", "each 2", "shape", "clear", "count"]
@@ -56,7 +59,7 @@ def exhaustive_seqs(depth, nkeys=4):
 
 def gen_random(rng, chk, nops):
     ty = rng.choice(TYPES)
-    flags = rng.choice(["", "", " plain", " data", " plain data"])
+    flags = rng.choice(["", "", " plain", " data", " plain data", " konly", " vonly", " konly data", " vonly data"])
     style = rng.choice(["uniform", "dups", "ascending", "descending", "zigzag", "delete-heavy"])
     chk.bump("type:" + ty)
     chk.bump("style:" + style)
@@ -109,6 +112,7 @@ def run(chk, prop, view, modules, label):
     proof_ok, driver_ok, detail = pv.proof_stage(chk, modules)
     exe = pv.build_harness("tree", cfg, ["tree.c"], san="asan")
     fam = diffrun.Family("tree", exe, spec_view=view)
+    fam.keep_prefix = 1      # the `new …` line is the case's configuration, never shrunk away
     thorough = chk.tier == "thorough"
     rng = chk.rng
     cases = pv.load_corpus("trees") + pv.load_corpus(prop)
